@@ -40,6 +40,20 @@ PROPS = {
         "assumptions": ["UDP replies have at least 12 bytes (shorter datagrams are dropped by readMsgUdp)"],
         "explanation": "Gen.msgTruncated / Gen.udpWithFallbackExchange regenerated and proved equal to Model.C17; the correspondence drives upstream.NewUpstream(udp://) against harness listeners and compares what the caller got and whether TCP was used.",
     },
+    "C16": {
+        "lean_targets": ["MosdnsVerif.Props.C16"],
+        "obligation_files": ["MosdnsVerif/Props/C16.lean", "MosdnsVerif/Refine/C16.lean", "MosdnsVerif/Lemmas/Stream.lean", "MosdnsVerif/Lemmas/Bits.lean"],
+        "namespaces": ["Props.C16", "Refine.C16", "Lemmas.Stream", "Lemmas.Bits"],
+        "driver": "drv_C16",
+        "gen_functions": ["copyMsgWithLenHdr", "writeRawMsgToTCP", "readRawMsgFromTCP"],
+        "level": "proof",
+        "level_text": "Machine-checked proof (Lean 4) over the framing functions regenerated from net_io.go / transport/utils.go: write-then-read returns any 13..65535-byte message unchanged for every chunking of the stream (induction over the chunk list), sequences of frames decode to the same list, >65535 is refused before any write, announced<=12 / short / arbitrary streams give an error and a successful read returns exactly the announced size. Tied to the code by regeneration and by differential runs of the real readers/writers under seeded chunkings; non-interleaving of concurrent server replies is exercised on ServeTCP with a wrapped connection.",
+        "level_note": "Partial for the last sentence of the property: that concurrently written replies do not interleave rests on one Write per reply and on Write being atomic per call (Go runtime), which the model states but only the ServeTCP runs observe. Absence of panics is proved for the model (total functions) and observed under recover for the code. io.ReadFull and pool.GetBuf are modelled (Go.readFull, Go.make).",
+        "technique": "Lean 4 proof (induction over chunked streams) on T1-regenerated framing functions + differential correspondence + concurrent ServeTCP runs",
+        "trusted": ["modelled, not verified: io.ReadFull semantics (Go.readFull), pool.GetBuf (exact-size buffer), miekg PackBuffer, net.Conn.Write atomicity per call"],
+        "assumptions": ["a reply handed to one Write call is not interleaved with another Write on the same connection (Go net / crypto/tls contract)"],
+        "explanation": "Gen.* framing functions proved equal to Model.C16 and the round-trip / exact-size / error theorems proved for every chunking; correspondence runs the real functions on the same streams and chunkings.",
+    },
 }
 
 # Reasons for properties that are not claimed (yet).
